@@ -98,7 +98,7 @@ def _plan(prop, T):
                 key_closure("dbg", mon, T),
                 key_random("dbg", mon, "tree", 6400, T),
                 key_random("rel", mon, "tree", 9600, T),
-                dict(flavour="rel", suite="key-random", args=dict(mon="pred,empty", coll="tree", profile="marathon", noexport=1), shards=16, budget=16, timeout=3400 if T else 150, seed_offset=61),
+                dict(flavour="rel", suite="key-random", args=dict(mon="pred,empty", coll="tree", profile="marathon", noexport=1), shards=16, budget=32, timeout=3400 if T else 150, seed_offset=61),
                 dict(flavour="dbg", suite="sweep-line", args=dict(mon="pred,empty,phys", coll="tree"), shards=8, budget=160 * (6 if T else 1)),
                 dict(flavour="rel", suite="big", args=dict(max_n=4000000 if T else 400000, probes="kquery"), shards=16, timeout=3400 if T else 150),
                 miri("key-random", 128, 8, T, mon="pred,empty", coll="tree", **MIRI_KEY),
